@@ -156,7 +156,10 @@ def get_atomic_sequence(xsd_type: Optional[XsdTypeProtocol],
             nonlocal namespaces
             if namespaces is None:
                 namespaces = {}
+            s = s.strip()  # the whiteSpace facet of xs:QName is 'collapse'
             if ':' not in s:
+                if None in namespaces:
+                    return value.__class__(namespaces[None], s)  # type: ignore[index]
                 return value.__class__(namespaces.get(''), s)
             try:
                 return value.__class__(namespaces[s.split(':')[0]], s)
